@@ -297,13 +297,33 @@ CHECKS = {
 PENDING_REASON = "check not built yet in this session (work in progress; see DESIGN.md section 5 for the plan)"
 
 
+def translated_for(pid):
+    import sys
+    sys.path.insert(0, VERIF)
+    from harness import trspecs
+    return [sp for sp in trspecs.SPECS if pid in sp["props"]]
+
+
 def main():
     props = [json.loads(l) for l in open(os.path.join(VERIF, "properties.jsonl"))]
     checks, na = [], []
     for p in props:
         pid = p["id"]
         if pid in CHECKS:
-            c = CHECKS[pid]
+            c = dict(CHECKS[pid])
+            tr = translated_for(pid)
+            if tr:
+                quals = sorted({sp["qual"] + (" (slice)" if "slice" in sp else "") for sp in tr})
+                groups = sorted({sp["group"] for sp in tr})
+                c["text"] = c["text"] + (
+                    " Regenerated tie (DESIGN.md section 16): " + ", ".join(quals) + " are translated from the Python source "
+                    "to Lean definitions on every run (harness/py2lean.py) and proved equal, for all inputs, to the model "
+                    "functions the theorems above are about (theorems tr_* in " + ", ".join(f"Props/Tr{g}.lean" for g in groups)
+                    + "); a source change inside one of them breaks a proof obligation in lake build whatever cases the "
+                    "generators draw, and a function the translator can no longer read is reported as a broken obligation.")
+                c["technique"] = c["technique"] + " + decision kernels translated from the Python source to Lean on every run, with equivalence theorems to the model"
+                c["note"] = c.get("note", NOTE) + (" Also trusted: harness/py2lean.py (the translator's reading of its Python "
+                                                   "subset), FinamModel/PyPrelude.lean, and the per-function specs in harness/trspecs.py.")
             checks.append({
                 "property_id": pid,
                 "quick_cmd": f"./check {pid} quick",
